@@ -1213,7 +1213,7 @@ func c08Exec(c *arshalCase) {
 	genJSONFor(r, td, &sb, 0)
 	clean := []byte(sb.String())
 	text := clean
-	mode := []string{"dup", "dup", "dup-escaped", "badutf8", "clean", "wide"}[r.IntN(6)]
+	mode := []string{"dup", "dup", "dup-escaped", "badutf8", "clean", "wide", "widestruct"}[r.IntN(7)]
 	prefill := r.IntN(3) == 0 && c.Seed[0]%2 == 0
 	if mode == "wide" {
 		// more than 64 members (the name set switches to a map) with the first or last name repeated,
@@ -1226,6 +1226,42 @@ func c08Exec(c *arshalCase) {
 		c.Type = t.String()
 		text = []byte(fmt.Sprintf(`{%q:%s,"K":1}`, []string{"D", "X", "M", "zz_unknown"}[r.IntN(4)], w))
 		clean = []byte(`{"K":2,"M":{"pre":1}}`)
+	}
+	if mode == "widestruct" {
+		// a struct of 100..220 fields (the set of fields seen grows past 64 and 128 entries): a few
+		// members from anywhere in it, then one of them again
+		n := 100 + r.IntN(120)
+		td = &tdesc{K: "struct"}
+		for i := 0; i < n; i++ {
+			td.Fields = append(td.Fields, fdesc{Go: fmt.Sprintf("F%03d", i), T: &tdesc{K: "int"}})
+		}
+		t = buildType(td)
+		c.Type = fmt.Sprintf("struct of %d int fields", n)
+		k := 2 + r.IntN(4)
+		var picks []int
+		for len(picks) < k {
+			picks = append(picks, []int{r.IntN(n), r.IntN(min(n, 64)), 64 + r.IntN(min(n-64, 64)), n - 1 - r.IntN(min(n, 30))}[r.IntN(4)])
+		}
+		var sb strings.Builder
+		sb.WriteByte('{')
+		seen := map[int]bool{}
+		for i, p := range picks {
+			if seen[p] {
+				continue
+			}
+			seen[p] = true
+			if i > 0 {
+				sb.WriteByte(',')
+			}
+			fmt.Fprintf(&sb, `"F%03d":%d`, p, i)
+		}
+		clean = []byte(sb.String() + "}")
+		if r.IntN(5) == 0 {
+			text = clean
+		} else {
+			fmt.Fprintf(&sb, `,"F%03d":9}`, picks[r.IntN(len(picks))])
+			text = []byte(sb.String())
+		}
 	}
 	switch mode {
 	case "dup", "dup-escaped":
